@@ -1,24 +1,26 @@
 #!/bin/bash
 # seedtest.sh [-t tier] <seed-name> <check-id>...
-# Applies /verif/seeded/<seed-name>/patch.diff to /repo, runs the listed checks, reverts
-# the patch straight afterwards, and prints one line per check: DETECTED / MISSED / BROKEN.
-# Nothing is ever committed to /repo.
+# Applies /verif/seeded/<seed-name>/patch.diff to a scratch worktree of /repo (never to /repo
+# itself), runs the listed checks against that worktree (VERIF_REPO) with evidence, replays and
+# work files sent to a scratch directory (VERIF_OUT), removes both afterwards and prints one
+# line per check: DETECTED / MISSED / BROKEN. Logs are kept under /verif/work/seedlogs/.
 tier=quick
 if [ "$1" = "-t" ]; then tier=$2; shift 2; fi
 seed=$1; shift
 cd /verif
-if [ -n "$(git -C /repo status --porcelain)" ]; then echo "/repo is not clean"; exit 2; fi
-git -C /repo apply "/verif/seeded/$seed/patch.diff" || { echo "patch does not apply"; exit 2; }
-trap 'git -C /repo checkout -- . ; git -C /repo clean -fdq' EXIT
+wt=/tmp/seedwt/$seed-$$
+out=/tmp/seedout/$seed-$$
+mkdir -p /tmp/seedwt "$out" /verif/work/seedlogs
+git -C /repo worktree add --detach "$wt" HEAD >/dev/null 2>&1 || { echo "cannot create worktree"; exit 2; }
+cleanup() { git -C /repo worktree remove --force "$wt" >/dev/null 2>&1; rm -rf "$wt" "$out"; }
+trap cleanup EXIT
+git -C "$wt" apply "/verif/seeded/$seed/patch.diff" || { echo "patch does not apply"; exit 2; }
 for id in "$@"; do
-  log=/verif/work/seed-$seed-$id.log
-  mkdir -p /verif/work
-  cp /verif/evidence/$id.json /verif/work/ev-$id.bak 2>/dev/null
+  log=/verif/work/seedlogs/$seed-$id-$tier.log
   start=$(date +%s)
-  ./bin/check $id --tier $tier >$log 2>&1
+  VERIF_REPO="$wt" VERIF_OUT="$out" ./bin/check $id --tier $tier >$log 2>&1
   rc=$?
   end=$(date +%s)
-  cp /verif/work/ev-$id.bak /verif/evidence/$id.json 2>/dev/null
   nv=$(grep -c "^VIOLATION" $log)
   first=$(grep -m1 -A1 "^VIOLATION" $log | grep signature | cut -c1-220)
   case $rc in
